@@ -53,6 +53,9 @@ class C15World(World):
     @classmethod
     def gen_config(cls, rng, tier):
         spec = zoo.gen_spec(rng, allow_slow=rng.chance(0.1 if tier == "quick" else 0.25))
+        # C15 continues TRAINING on all incarnations and compares bit for bit, which is only meaningful when a
+        # training-mode pass is a deterministic function of (state, input): dropout (stateless, nothing to save) off
+        spec = zoo.without_dropout(spec)
         cfg = {"spec": spec, "label": zoo.label(spec), "seed": rng.seed30(),
                "length": rng.pick([3, 4, 5, 6, 8, 10, 12] if tier == "quick" else [5, 8, 12, 20, 30]),
                "weights": {k: rng.pick([0, 1, 1, 3]) for k in OPKINDS}}
